@@ -387,7 +387,19 @@ def r6(ctx):
     ctx.floor(R, 16)
 
 
+def r7(ctx):
+    R = "C07-R7"
+    ctx.rule(R, "error discipline: the results of Fs::sync_file / sync_file_data / sync_dir / check_space are examined or propagated by the shims "
+                "and io_uring executors; only the three random background-sync sites may discard sync_file's result (a sync that failed must not report success)")
+    allow = {"turmoil_fs::shim::std::fs::File::set_len": "random background sync is best effort",
+             "turmoil_fs::shim::std::fs::File::write_at_internal": "random background sync is best effort",
+             "turmoil_io_uring::sim::exec_write": "random background sync is best effort"}
+    dropped_results_rule(ctx, R, re.compile(r"^turmoil_fs::Fs::(sync_file|sync_file_data|sync_dir|check_space)$"), allow, ("turmoil_fs", "turmoil_io_uring", "turmoil"))
+    ctx.floor(R, 6)
+
+
 def run(ctx):
+    r7(ctx)
     r6(ctx)
     r1(ctx)
     r2(ctx)
